@@ -16,7 +16,8 @@ from common import Rng, esc
 PID = "C19"
 MAP_THEOREMS = ["insert_inv", "remove_inv", "lookup_insert", "lookup_remove", "size_insert", "size_remove", "fib_le_size",
                 "height_eq_real", "height_bound_144", "map_count_and_inv"]
-SEQ_THEOREMS = ["sort_sorted", "sort_perm", "queue_fifo"]
+SEQ_THEOREMS = ["sort_sorted", "sort_perm", "queue_fifo", "queue_history_fifo", "queue_clear_resets", "vec_pushBack_popBack",
+                "vec_pushFront_popFront", "vec_at_pushBack", "vec_at_pushFront", "vec_length_step", "vec_at_deleteAt", "vec_find_spec"]
 _has_map = os.path.exists(os.path.join(common.LEAN, "CbProofs", "Avl.lean"))
 THEOREMS = {"CbProps.C19": ["CbProps.C19." + t for t in (MAP_THEOREMS if _has_map else []) + SEQ_THEOREMS]}
 
